@@ -8,6 +8,8 @@ rows in the image of the axis computed by its growth loop (C09d) and leaves ever
 import FggsModel.Solve
 import FggsProofs.Props.C09
 import FggsProofs.Props.C09b
+import FggsProofs.Props.C08
+import FggsProofs.Props.C11
 import FggsProofs.C09bLemmas
 import FggsProofs.C09eLemmas
 import Mathlib.Tactic.Linarith
@@ -146,6 +148,142 @@ theorem restricted_isLeast (S : SR K) (le : K → K → Prop) (star : K → K) (
       exact this
     · rw [getV_extend_none S a.length I _ i hi hiI]
       exact hz _
+
+/-! ### the executable models on `Ext` / `Bool`
+
+The carriers `[0, ∞]` (Real) and `[-∞, ∞]` (Viterbi) are subtypes of `Ext`; the inclusion is a semiring homomorphism
+that commutes with `star`, `restrictA`, `restrictB`, `extend`, `solveLoop` and `affine`, so `restricted_isLeast` on the
+carrier transfers to the executable loop on `Ext`. -/
+
+section hom
+variable {K' : Type} {S : SR K} {S' : SR K'} {f : K → K'} (hf : C11.Hom S S' f)
+include hf
+
+private theorem restrictA_map (a : List (List K)) (I : List Nat) :
+    restrictA S' (a.map (List.map f)) I = (restrictA S a I).map (List.map f) := by
+  unfold restrictA
+  simp only [List.map_map]
+  apply List.map_congr_left; intro i _
+  simp only [Function.comp_def, List.map_map]
+  apply List.map_congr_left; intro j _
+  exact getM_map hf a i j
+
+private theorem restrictB_map (b : List K) (I : List Nat) :
+    restrictB S' (b.map f) I = (restrictB S b I).map f := by
+  unfold restrictB
+  simp only [List.map_map]
+  apply List.map_congr_left; intro i _
+  exact getV_map hf b i
+
+private theorem extend_map (n : Nat) (I : List Nat) (x : List K) :
+    extend S' n I (x.map f) = (extend S n I x).map f := by
+  unfold extend
+  simp only [List.map_map]
+  apply List.map_congr_left; intro i _
+  simp only [Function.comp_def]
+  cases I.idxOf? i with
+  | none => exact hf.zero.symm
+  | some p => exact getV_map hf x p
+
+end hom
+
+/-- transfer of `restricted_isLeast` along the inclusion of a carrier -/
+private theorem restricted_transfer {P : Ext → Prop} (SK : SR {x // P x}) (SE : SR Ext)
+    (hf : C11.Hom SK SE (fun x => x.1)) (starK : {x // P x} → {x // P x}) (starE : Ext → Ext)
+    (hs : ∀ a, starE a.1 = (starK a).1)
+    (h : C09b.OrdStarLaws SK (fun a b => a.1.le b.1 = true) starK)
+    (hz : ∀ x : {x // P x}, SK.zero.1.le x.1 = true)
+    (a : List (List Ext)) (b : List Ext) (hsq : C09.Square a b)
+    (hca : ∀ r ∈ a, ∀ x ∈ r, P x) (hcb : ∀ x ∈ b, P x)
+    (I : List Nat) (hnd : I.Nodup) (hI : ∀ i ∈ I, i < a.length)
+    (hb : ∀ i, i < a.length → i ∉ I → getV SE b i = SE.zero)
+    (ha : ∀ i, i < a.length → i ∉ I → ∀ j ∈ I, getM SE a i j = SE.zero) :
+    let x := extend SE a.length I (solveLoop SE starE (restrictA SE a I) (restrictB SE b I))
+    affine SE a b x = x ∧
+    ∀ y : List Ext, (∀ v ∈ y, P v) →
+      (∀ i, i < a.length → (getV SE (affine SE a b y) i).le (getV SE y i) = true) →
+      ∀ i, i < a.length → (getV SE x i).le (getV SE y i) = true := by
+  obtain ⟨a', rfl⟩ := lift_mat a hca
+  obtain ⟨b', rfl⟩ := lift_list b hcb
+  have hsq' : C09.Square a' b' := by
+    obtain ⟨h1, h2⟩ := hsq
+    simp only [List.length_map] at h1 h2
+    refine ⟨?_, h2⟩
+    intro r hr
+    have := h1 (r.map (fun x => x.1)) (List.mem_map.2 ⟨r, hr, rfl⟩)
+    simpa using this
+  simp only [List.length_map] at hI hb ha ⊢
+  have hb' : ∀ i, i < a'.length → i ∉ I → getV SK b' i = SK.zero := by
+    intro i hi hiI
+    apply Subtype.ext
+    have := hb i hi hiI
+    rw [getV_map hf, ← hf.zero] at this
+    exact this
+  have ha' : ∀ i, i < a'.length → i ∉ I → ∀ j ∈ I, getM SK a' i j = SK.zero := by
+    intro i hi hiI j hj
+    apply Subtype.ext
+    have := ha i hi hiI j hj
+    rw [getM_map hf, ← hf.zero] at this
+    exact this
+  obtain ⟨hfix, _, hleast⟩ := restricted_isLeast SK _ starK h hz a' b' hsq' I hnd hI hb' ha'
+  rw [restrictA_map hf, restrictB_map hf, C09b.solveLoop_map_hom SK SE _ hf starK starE hs, extend_map hf]
+  refine ⟨?_, ?_⟩
+  · rw [affine_map hf, hfix]
+  · intro y hy hpre
+    obtain ⟨y', rfl⟩ := lift_list y hy
+    intro i hi
+    rw [getV_map hf, getV_map hf]
+    apply hleast y' _ i hi
+    intro j hj
+    have := hpre j hj
+    rw [affine_map hf, getV_map hf, getV_map hf] at this
+    exact this
+
+/-- **RealSemiring, executable model**: on a square system with entries in `[0, ∞]` whose rows outside `I` are closed,
+the loop `solveLoop realSR Impl.realStar` on the restricted system, extended by zero, is a solution of the full system
+`x = A x + b` and is below every pre-fixed point with entries in `[0, ∞]` -/
+theorem real_restricted_isLeast (a : List (List Ext)) (b : List Ext) (hsq : C09.Square a b)
+    (hca : ∀ r ∈ a, ∀ x ∈ r, C08.RealC x) (hcb : ∀ x ∈ b, C08.RealC x)
+    (I : List Nat) (hnd : I.Nodup) (hI : ∀ i ∈ I, i < a.length)
+    (hb : ∀ i, i < a.length → i ∉ I → getV realSR b i = realSR.zero)
+    (ha : ∀ i, i < a.length → i ∉ I → ∀ j ∈ I, getM realSR a i j = realSR.zero) :
+    let x := extend realSR a.length I (solveLoop realSR Impl.realStar (restrictA realSR a I) (restrictB realSR b I))
+    affine realSR a b x = x ∧
+    ∀ y : List Ext, (∀ v ∈ y, C08.RealC v) →
+      (∀ i, i < a.length → (getV realSR (affine realSR a b y) i).le (getV realSR y i) = true) →
+      ∀ i, i < a.length → (getV realSR x i).le (getV realSR y i) = true :=
+  restricted_transfer C11.realK realSR C11.real_val_hom C09b.realKStar Impl.realStar (fun _ => rfl)
+    C09b.realOrdStar C09b.zero_least_instances.2.2 a b hsq hca hcb I hnd hI hb ha
+
+/-- **ViterbiSemiring, executable model**: the same on `[-∞, ∞]` with (max, +) -/
+theorem vit_restricted_isLeast (a : List (List Ext)) (b : List Ext) (hsq : C09.Square a b)
+    (hca : ∀ r ∈ a, ∀ x ∈ r, C08.VitC x) (hcb : ∀ x ∈ b, C08.VitC x)
+    (I : List Nat) (hnd : I.Nodup) (hI : ∀ i ∈ I, i < a.length)
+    (hb : ∀ i, i < a.length → i ∉ I → getV vitSR b i = vitSR.zero)
+    (ha : ∀ i, i < a.length → i ∉ I → ∀ j ∈ I, getM vitSR a i j = vitSR.zero) :
+    let x := extend vitSR a.length I (solveLoop vitSR Impl.vitStar (restrictA vitSR a I) (restrictB vitSR b I))
+    affine vitSR a b x = x ∧
+    ∀ y : List Ext, (∀ v ∈ y, C08.VitC v) →
+      (∀ i, i < a.length → (getV vitSR (affine vitSR a b y) i).le (getV vitSR y i) = true) →
+      ∀ i, i < a.length → (getV vitSR x i).le (getV vitSR y i) = true :=
+  restricted_transfer C11.vitK vitSR C11.vit_val_hom C09b.vitKStar Impl.vitStar (fun _ => rfl)
+    C09b.vitOrdStar C09b.zero_least_instances.2.1 a b hsq hca hcb I hnd hI hb ha
+
+/-- **BoolSemiring, executable model** -/
+theorem bool_restricted_isLeast (a : List (List Bool)) (b : List Bool) (hsq : C09.Square a b)
+    (I : List Nat) (hnd : I.Nodup) (hI : ∀ i ∈ I, i < a.length)
+    (hb : ∀ i, i < a.length → i ∉ I → getV boolSR b i = boolSR.zero)
+    (ha : ∀ i, i < a.length → i ∉ I → ∀ j ∈ I, getM boolSR a i j = boolSR.zero) :
+    let x := extend boolSR a.length I
+      (solveLoop boolSR (fun _ => true) (restrictA boolSR a I) (restrictB boolSR b I))
+    affine boolSR a b x = x ∧
+    ∀ y : List Bool,
+      (∀ i, i < a.length → getV boolSR (affine boolSR a b y) i = true → getV boolSR y i = true) →
+      ∀ i, i < a.length → getV boolSR x i = true → getV boolSR y i = true := by
+  intro x
+  obtain ⟨hfix, _, hleast⟩ := restricted_isLeast boolSR C09b.boolLe (fun _ => true) C09b.boolOrdStar
+    C09b.zero_least_instances.1 a b hsq I hnd hI hb ha
+  exact ⟨hfix, fun y hpre => hleast y hpre⟩
 
 /-! ### non-vacuity (Boolean semiring): rows {0, 2} of a 3 × 3 system are closed -/
 
